@@ -40,23 +40,23 @@ def seed():
 
 # --------------------------------------------------------------------------- building
 
-_built = False
+_built = set()
 
 
-def build_harness():
-    """Rebuild the harness (and with it the sylt crates from /repo's working tree)."""
-    global _built
-    if _built:
+def build_harness(bins=None):
+    """Rebuild the harness (and with it the sylt crates from /repo's working tree).
+    bins: list of binary names to build; None builds the library only."""
+    targets = ["--lib"] if not bins else sum((["--bin", b] for b in bins), [])
+    key = tuple(targets)
+    if key in _built:
         return
-    t0 = time.time()
     env = dict(os.environ, CARGO_NET_OFFLINE="true")
-    p = subprocess.run(["cargo", "build", "--offline", "--bins", "-q"], cwd=HARNESS, env=env,
+    p = subprocess.run(["cargo", "build", "--offline", "-q"] + targets, cwd=HARNESS, env=env,
                        stdout=subprocess.PIPE, stderr=subprocess.STDOUT, text=True)
     if p.returncode != 0:
         sys.stderr.write(p.stdout[-6000:])
         tool_error("harness build failed (does /repo compile?)")
-    _built = True
-    return time.time() - t0
+    _built.add(key)
 
 
 _sylt_bin = None
@@ -81,7 +81,7 @@ def build_sylt_binary(workdir):
 def harness(binname, args, stdin=None, timeout=3600, env=None, check=True):
     """Run a harness binary. Harness binaries exit 0 normally and 2 on tool errors;
     verdicts are data in their output files, never exit codes."""
-    build_harness()
+    build_harness([binname])
     e = dict(os.environ)
     e["VERIF_ROOT"] = ROOT
     if env:
